@@ -28,8 +28,11 @@ type Master struct {
 	// (a master's reply and the first backlog bytes usually share a TCP segment)
 	PsyncExtra func(p Psync) []byte
 	Password   string
-	Role       string // for INFO replication, default master
-	Unknown    map[string]bool // command names answered with Redis >= 5's "unknown command ... with args beginning with" error
+	// AuthReply, when non-empty, is the reply line (without CRLF) to every AUTH, e.g. the error a
+	// server without requirepass gives
+	AuthReply string
+	Role      string          // for INFO replication, default master
+	Unknown   map[string]bool // command names answered with Redis >= 5's "unknown command ... with args beginning with" error
 
 	acks   []int64
 	ackAt  []int // connection index of each ack
@@ -142,7 +145,9 @@ func (m *Master) Serve(c net.Conn) {
 		}
 		switch strings.ToLower(argv[0]) {
 		case "auth":
-			if len(argv) == 2 && argv[1] == m.Password {
+			if m.AuthReply != "" {
+				reply = m.AuthReply + "\r\n"
+			} else if len(argv) == 2 && argv[1] == m.Password {
 				reply = "+OK\r\n"
 			} else {
 				reply = "-ERR invalid password\r\n"
